@@ -158,6 +158,12 @@ func (s *serverSocket) onPacket(header *parser.PacketHeader, eventName string, d
 
 func (s *serverSocket) onDisconnect() {
 	s.debug.Log("Got disconnect packet")
+	// The connection knows the socket slightly before the socket is marked as connected (see Namespace.doConnect,
+	// which holds `closedMu` meanwhile). A client that disconnects without waiting for the reply to its CONNECT
+	// packet can get us here in between. Closing a socket that is not connected yet does nothing, and the
+	// socket would then stay connected forever. Wait until the socket is connected.
+	s.conn.closedMu.Lock()
+	s.conn.closedMu.Unlock()
 	s.onClose(ReasonClientNamespaceDisconnect)
 }
 
